@@ -135,7 +135,7 @@ REALLOC_NOTE = "content preservation across realloc is proved for one arbitrary 
 
 _p('C05', 'proof', 'DESIGN.md 5/C05',
    [HIST_ASSUME, FENCE_ASSUME, SIZE_ASSUME, LIBC_ASSUME,
-    "per-operation contracts cover: unique alloc/reset; shared alloc (into empty), reset, share (into empty / from empty), unique, get; weak from (into empty), lock (into empty / from empty), reset. Re-targeting an occupied pointer is reset followed by the empty-target case (both under contract; the composition is the first statement of the function). shared / weak / unique swap (also with itself) and unique release are under contract: the frame is the two objects, so no counter moves and nothing is destroyed",
+    "per-operation contracts cover: unique alloc/reset/release/swap; shared alloc (into empty / onto an owner), reset, share (into empty / from empty / onto an owner of another allocation), unique, get, swap; weak from (into empty / onto a weak reference of another allocation), lock (into empty / from empty / onto an owner of another allocation), reset, swap. shared / weak / unique swap (also with itself) and unique release are under contract: the frame is the two objects, so no counter moves and nothing is destroyed",
     "the case 'both pointers already own the same allocation' (share/lock onto a co-owner) is decided on explicit objects with symbolic counters (group memory.same_block), not through an is_fresh contract (DFCC cannot alias two fresh parameters)"])
 _p('C09', 'proof', 'DESIGN.md 5/C09',
    [HIST_ASSUME, LIBC_ASSUME, REALLOC_NOTE, SIZE_ASSUME,
@@ -200,7 +200,7 @@ _p('C13', 'model_checking', 'DESIGN.md 5/C13',
 CHAIN = "chain-level (element-level) statements are bounded: tables of 1..4 buckets, 4 resident elements with keys 0,1,3,1 (duplicates), hash functions k%m, (k/2)%m, 0; every pair of geometries for a pending rehash, interleaved keyed operations, a second resize while pending, forced rehash, shrink_to_fit, swap"
 _p('C03', 'model_checking', 'DESIGN.md 5/C03',
    [BOUNDED_ASSUME, CALLBACK_ASSUME, HIST_ASSUME, CHAIN, SIZE_ASSUME,
-    "proved (unbounded, every table size): the flat invariant and the sweep invariant of the bucket array are preserved by get_bucket / rehash / resize / shrink_to_fit / set_capacity; every bucket-array access is in bounds; cstl_clean_bucket is replaced by its flat contract there (bounded-checked on chains of 0..3 nodes)"],
+    "proved (unbounded, every table size): the flat invariant and the sweep invariant of the bucket array are preserved by get_bucket / rehash / resize / shrink_to_fit / set_capacity; every bucket-array access is in bounds; get_bucket hands back the bucket the effective (pending, if any) function selects and has relocated the bucket the key selects under the old geometry; settled tables have every bucket clean; one step of a lookup / erase (cstl_hash_find_visit / cstl_hash_erase_visit), cstl_hash_swap, and (thorough tier) cstl_hash_insert at array level; cstl_clean_bucket is replaced by its flat contract there (bounded-checked on chains of 0..3 nodes)"],
    [NORM])
 _p('C04', 'model_checking', 'DESIGN.md 5/C04',
    [BOUNDED_ASSUME, CALLBACK_ASSUME, CHAIN,
